@@ -303,7 +303,7 @@ pub struct ProjCfg {
 const MODES: [(&str, &str); 3] = [("with-loader-ts-5.0", "d.graphql.ts"), ("with-loader-ts-4.0", "graphql.d.ts"), ("standalone-ts-4.0", "graphql.ts")];
 
 pub const EXTRA_SCHEMA: &str = "scalar Url\nscalar Json\nscalar Big\nextend type User {\n  site: Url\n  meta: Json\n  big: Big\n}\ntype Bot implements Node & Named {\n  id: ID!\n  name: String\n  model: String\n}\ntype Org implements Node & Named {\n  id: ID!\n  name: String\n  members: [User!]!\n}\nextend union SearchResult = Bot | Org\n";
-pub const EXTRA_OP: &str = "#import * from \"../frags.graphql\"\nquery Orgs {\n  search(text: \"o\") { __typename ... on Org { members { ...UserBits site meta big } } ... on Bot { model } }\n  node(id: \"2\") { ... on Named { name } ... on Bot { model } ... on Org { id } }\n}\n";
+pub const EXTRA_OP: &str = "#import * from \"../frags.graphql\"\nquery Flags($a: Boolean!, $b: Boolean!, $c: Boolean! = true, $d: Boolean!) {\n  me { id @skip(if: $a) name @include(if: $b) kind @skip(if: $c) age @include(if: $d) ... on User @skip(if: $b) { born } }\n}\nquery Orgs {\n  search(text: \"o\") { __typename ... on Org { members { ...UserBits site meta big } } ... on Bot { model } }\n  node(id: \"2\") { ... on Named { name } ... on Bot { model } ... on Org { id } }\n}\n";
 
 pub fn project_configs(quick: bool) -> Vec<ProjCfg> {
     let mut v = vec![
